@@ -222,6 +222,12 @@ impl ThreadLocalCache {
 
     /// Allocate memory from thread-local cache
     fn allocate(&mut self, size: usize, config: &ThreadLocalPoolConfig) -> Result<NonNull<u8>> {
+        // Requests too large for a hot area never touch the cache
+        // (deallocate() makes the same decision from the same size)
+        if size > config.arena_size / 4 {
+            return self.allocate_from_global(size);
+        }
+
         // Try size class free list first
         if let Some(list_index) = self.size_to_list_index(size) {
             if let Some(ptr) = self.free_lists[list_index].pop() {
@@ -255,6 +261,14 @@ impl ThreadLocalCache {
 
     /// Deallocate memory to thread-local cache
     fn deallocate(&mut self, ptr: NonNull<u8>, size: usize, config: &ThreadLocalPoolConfig) -> Result<()> {
+        if size > config.arena_size / 4 {
+            // came from the system allocator (see allocate / allocate_from_global)
+            let layout = Layout::from_size_align(size, 8)
+                .map_err(|e| ZiporaError::invalid_data(&format!("Invalid layout: {}", e)))?;
+            unsafe { dealloc(ptr.as_ptr(), layout) };
+            return Ok(());
+        }
+
         // Find appropriate size class
         if let Some(list_index) = self.size_to_list_index(size) {
             let free_list = &mut self.free_lists[list_index];
@@ -317,15 +331,12 @@ impl ThreadLocalCache {
             stats.cache_misses.fetch_add(1, Ordering::Relaxed);
         }
 
-        if let Some(global_pool) = self.global_pool.upgrade() {
-            // Use the regular allocate method since we don't have bypass_cache
-            global_pool.allocate(size).and_then(|alloc| {
-                NonNull::new(alloc.as_ptr())
-                    .ok_or_else(|| ZiporaError::out_of_memory(size))
-            })
-        } else {
-            Err(ZiporaError::invalid_data("Global pool unavailable"))
-        }
+        // Going back through ThreadLocalMemoryPool::allocate() re-entered the thread-local
+        // cache (RefCell already borrowed) and would have returned a pointer whose RAII
+        // guard is dropped on the spot. Use the system allocator directly.
+        let layout = Layout::from_size_align(size, 8)
+            .map_err(|e| ZiporaError::invalid_data(&format!("Invalid layout: {}", e)))?;
+        NonNull::new(unsafe { alloc(layout) }).ok_or_else(|| ZiporaError::out_of_memory(size))
     }
 
     /// Deallocate to global pool
